@@ -9,6 +9,7 @@ expression of the repository does not move or lose an annotation.  The generated
 file minus the inserted ranges is, token for token, the mechanically extracted
 text (checked on every run by `verify_insert_only`).
 """
+import re
 import difflib
 import json
 from .lex import lex, texts
@@ -152,6 +153,73 @@ def _slide(opcodes, rt, at):
     return [tuple(o) for o in ops]
 
 
+def _rebalance(opcodes, rt, at):
+    """second pass after _slide: a chain  insert, equal(closers only), insert, ...  whose insertions are not balanced is
+    re-split by a depth scan of the whole stretch of annotated tokens: a closer met at depth 0 cannot belong to an inserted
+    (balanced) piece, so it is the repository's.  Applied only when the scan finds exactly the repository closers, in order."""
+    ops = [list(o) for o in opcodes]
+    out = []
+    k = 0
+    while k < len(ops):
+        o = ops[k]
+        if o[0] != 'insert' or _balanced(at[o[3]:o[4]]):
+            out.append(o)
+            k += 1
+            continue
+        # collect the chain
+        chain = [o]
+        e = k + 1
+        while (e + 1 < len(ops) and ops[e][0] == 'equal' and all(t in _CLOSE for t in at[ops[e][3]:ops[e][4]])
+               and ops[e + 1][0] == 'insert'):
+            chain += [ops[e], ops[e + 1]]
+            e += 2
+            if _balanced([t for c in chain if c[0] == 'insert' for t in at[c[3]:c[4]]]):
+                break
+        if len(chain) == 1:
+            out.append(o)
+            k += 1
+            continue
+        j1, j2 = chain[0][3], chain[-1][4]
+        repo_closers = [t for c in chain if c[0] == 'equal' for t in at[c[3]:c[4]]]
+        depth = []
+        found = []
+        for q in range(j1, j2):
+            t = at[q]
+            if t in _OPEN:
+                depth.append(_OPEN[t])
+            elif t in _CLOSE:
+                if depth and depth[-1] == t:
+                    depth.pop()
+                elif not depth:
+                    found.append(q)
+                else:
+                    found = None
+                    break
+        if found is None or depth or [at[q] for q in found] != repo_closers:
+            out.append(o)
+            k += 1
+            continue
+        i = chain[0][1]
+        pos = j1
+        for q in found:
+            if q > pos:
+                out.append(['insert', i, i, pos, q])
+            out.append(['equal', i, i + 1, q, q + 1])
+            i += 1
+            pos = q + 1
+        if j2 > pos:
+            out.append(['insert', i, i, pos, j2])
+        k += len(chain)
+    m = []
+    for x in out:
+        if m and m[-1][0] == x[0] == 'equal' and m[-1][2] == x[1] and m[-1][4] == x[3]:
+            m[-1][2] = x[2]
+            m[-1][4] = x[4]
+        else:
+            m.append(x)
+    return [tuple(x) for x in m]
+
+
 def _imbalance(toks):
     st = []
     bad = 0
@@ -210,7 +278,7 @@ def _two_level_opcodes(R, rn, A, an, rt, at):
             merged[-1] = (o[0], merged[-1][1], o[2], merged[-1][3], o[4])
         else:
             merged.append(o)
-    return _slide(merged, rt, at)
+    return _rebalance(_slide(merged, rt, at), rt, at)
 
 
 def _leaf_ops(R, rn, A, an, path, allow_subst, errs):
@@ -290,12 +358,37 @@ def _cont_ops(R, rn, A, an, path, allow_subst, errs):
     return ops
 
 
+def _strip_repo_comments(text, raw_comment_lines):
+    """an inserted text is a slice of the annotated file and so carries along the repository's own comment lines that
+    stand between the neighbouring tokens; the raw unit supplies those itself, so they are dropped here (otherwise
+    every refresh/compile cycle would add one more copy)"""
+    out = []
+    for l in text.split('\n'):
+        t = l.strip()
+        if t.startswith('//') and not t.startswith('//@') and t in raw_comment_lines:
+            continue
+        out.append(l)
+    return '\n'.join(out)
+
+
 def compile_overlay(raw, annotated, allow_subst=False):
     R, A = Tree(raw), Tree(annotated)
     errs = []
     ops = _cont_ops(R, R.root, A, A.root, (), allow_subst, errs)
     if errs:
         raise OverlayError('\n'.join(errs))
+    rc = {l.strip() for l in raw.split('\n') if l.strip().startswith('//')}
+    for o in ops:
+        if 'text' in o:
+            t = _strip_repo_comments(o['text'], rc)
+            # leading white space is the gap to the previous token: normalise it (it would grow by one per cycle)
+            m = re.match(r'\s*', t)
+            lead = t[:m.end()]
+            if '\n' in lead:
+                lead = '\n'
+            elif lead:
+                lead = ' '
+            o['text'] = lead + t[m.end():]
     return ops
 
 
